@@ -475,6 +475,17 @@ class Function:
         return task
 
     @classmethod
+    async def wait_for_task(cls, task):
+        """Wait until a task we started is done and return its result.
+
+        The task is a run of its own: cancelling the waiter must not cancel it (awaiting the
+        task directly would), and if it gets cancelled the waiter just continues with None
+        (awaiting it directly would raise CancelledError in the waiter).
+        """
+        await asyncio.wait({task})
+        return None if task.cancelled() else task.result()
+
+    @classmethod
     def task_forget(cls, task):
         """Forget a finished task: a task cancelled before its first step never reaches run_coro."""
         for name in cls.unique_task2name.pop(task, set()):
